@@ -67,6 +67,13 @@ TOptCall(ev) ==
   /\ Clause(ev, "opt-split", ev.rep.splitOk)
   /\ Clause(ev, "opt-fresh", ev.rep.freshOk)                              \* same outcome on a graph rebuilt from the numbers of the abstract state
 
+\* a call cut short by a failing edge: the exception propagates; frame of OptCall; the poses are those after some number of COMPLETE iterations
+TOptAbort(ev) ==
+  /\ Observe(ev) /\ status' = status /\ memo' = EmptyMemo
+  /\ Clause(ev, "abort-raised", ev.raised)
+  /\ Clause(ev, "abort-effect", Shape(ev) /\ OptAbortEffect(ev.fixFirst, [i \in DOMAIN ev.verts |-> ev.verts[i].pose]))
+  /\ Clause(ev, "abort-atomic", ev.applied >= 0 /\ ev.applied < ev.failAt)
+
 \* the user's edits: exactly one pose token / one edge's number token changes; remembered query results are void
 TSetPose(ev) ==
   /\ Observe(ev) /\ status' = status /\ memo' = EmptyMemo
@@ -93,6 +100,7 @@ TNext ==
          [] ev.op = "SetFixed" -> TSetFixed(ev)
          [] ev.op = "OptCall" -> TOptCall(ev)
          [] ev.op = "Reload" -> TReload(ev)
+         [] ev.op = "OptAbort" -> TOptAbort(ev)
          [] ev.op = "SetPose" -> TSetPose(ev)
          [] ev.op = "SetMeas" -> TSetMeas(ev)
 TSpec == TInit /\ [][TNext]_tvars
